@@ -46,6 +46,26 @@ func runC04Case(c *Ctx, kind string, input []rune) {
 	if c.Evals%8 == 0 {
 		checkTokEntryPoints(c, kind, 0, input, ts)
 	}
+	if c.Evals%16 == 9 {
+		// the SAME scanner object: a presence query, a rewind, and the scanner handed over again
+		var got []tk
+		st := safeCallT(3*time.Second, func() string {
+			t := newTokenizer(kind)
+			setOpts(t, 0)
+			sc := newScanner(string(input))
+			t.SetReader(sc)
+			t.HasNextToken()
+			sc.Reset()
+			got = conv(t.TokenizeStream(sc))
+			return ""
+		})
+		if st == "" {
+			if msg := oracleLossless(input, got); msg != "" {
+				c.fail(Failure{Kind: "oracle", Op: fmt.Sprintf("samesc %s 0 %s", kind, runesStr(input)), Impl: showTks(got), Note: "after HasNextToken(), Reset() of the scanner and TokenizeStream of the same scanner object: " + msg})
+				return
+			}
+		}
+	}
 	if c.Evals%16 == 1 {
 		// "any tokenizer": also one that was used before and abandoned in the middle of another input, right
 		// after a presence query (a token is then prefetched and never fetched)
